@@ -1263,7 +1263,7 @@ impl<'a> ParseState<'a, &'a str> {
             .copulas()
             .into_iter()
             // 是否有任意一个是「环境切片」的开头
-            .any(|copula| env_slice.starts_with_str(copula))
+            .any(|copula| crate::conversion::string::char_slice_starts_with_str(env_slice, copula))
     }
 
     /// 消耗&置入/词项/原子
